@@ -516,6 +516,83 @@ def campaign_differential(ck: Check, lab: Lab, n_cases: int, n_fresh: int, seeds
     camp.wall_s = time.time() - t0
 
 
+# ---------------------------------------------------------------- corpus: directory inputs that once depended on the listing order
+_OPENAPI_PET = json.dumps({"openapi": "3.0.3", "info": {"title": "t", "version": "1"}, "paths": {},
+                           "components": {"schemas": {"Pet": {"type": "object", "properties": {"name": {"type": "string"}}}}}})
+_SCHEMA_THING = json.dumps({"type": "object", "properties": {"n": {"type": "integer"}},
+                            "definitions": {"Part": {"type": "object", "properties": {"v": {"type": "string"}}}}})
+_DIR_BASE = {"opts": {}, "modular": True, "default_formatters": False}
+LISTING_CORPUS = [
+    # former witness of C08-basename (repaired): equal basenames in different directories kept the OS listing order
+    {"case": {**_DIR_BASE, "id": "corpus-basename", "model": "pydantic.BaseModel", "kind": "dir", "input_file_type": "jsonschema",
+              "same_basename": True, "files": ["common.json", "other/delta.json", "sub/common.json"]},
+     "dir_files": {"common.json": '{"type": "object"}', "other/delta.json": '{"type": "object"}',
+                   "sub/common.json": '{"type": "object", "additionalProperties": false}'}},
+    # former witness of C08-auto-dir (repaired): Auto + files of different types, the first LISTED file decided the parser
+    {"case": {**_DIR_BASE, "id": "corpus-auto-dir", "model": "pydantic_v2.BaseModel", "kind": "tree", "input_file_type": "auto",
+              "same_basename": False, "mixed_types": True, "files": ["a/service_api.json", "b/thing.json"]},
+     "dir_files": {"a/service_api.json": _OPENAPI_PET, "b/thing.json": _SCHEMA_THING}},
+    # the same basename at three depths, the deepest one listed first in the natural order of paths
+    {"case": {**_DIR_BASE, "id": "corpus-basename-3", "model": "pydantic_v2.BaseModel", "kind": "dir", "input_file_type": "jsonschema",
+              "same_basename": True, "files": ["a/b/item.json", "a/item.json", "item.json", "z.json"]},
+     "dir_files": {"a/b/item.json": '{"type": "object", "properties": {"deep": {"type": "integer"}}}',
+                   "a/item.json": '{"type": "object", "properties": {"mid": {"type": "string"}}, "additionalProperties": false}',
+                   "item.json": '{"type": "object", "properties": {"top": {"type": "boolean"}}}',
+                   "z.json": '{"type": "object", "properties": {"i": {"$ref": "item.json"}}}'}},
+    # both at once: Auto, an OpenAPI document and JSON Schemas that share one basename
+    {"case": {**_DIR_BASE, "id": "corpus-auto-basename", "model": "pydantic.BaseModel", "kind": "tree", "input_file_type": "auto",
+              "same_basename": True, "mixed_types": True, "files": ["m/common.json", "n/common.json", "z/service_api.json"]},
+     "dir_files": {"m/common.json": _SCHEMA_THING, "n/common.json": '{"type": "object", "additionalProperties": false}',
+                   "z/service_api.json": _OPENAPI_PET}},
+]
+CORPUS_LISTINGS = ["sorted", "reverse", "shuffle-c1", "shuffle-c2", "shuffle-c3", "shuffle-c4", "shuffle-c5", "shuffle-c6"]
+
+
+def campaign_listing_corpus(ck: Check, lab: Lab) -> None:
+    """runs first: every corpus directory under eight listing orders (and four hash seeds); since the repairs of C08-basename
+    and C08-auto-dir the output must be byte-identical in all of them"""
+    camp = ck.campaign("corpus: directory inputs that once depended on the listing order (repaired C08-basename, C08-auto-dir, and variants) under permuted listings -> byte-identical files")
+    t0 = time.time()
+    cases = []
+    for item in LISTING_CORPUS:
+        c = dict(item["case"])
+        c["path"] = lab.write_dir(c["id"], item["dir_files"])
+        cases.append(c)
+    cfgs = [dict(seed=i % 4, cwd=str(lab.root / "w" / "corpus"), listing=m) for i, m in enumerate(CORPUS_LISTINGS)]
+    res = pmap(lambda kw: lab.run("corpus", [strip(c) for c in cases], **kw), cfgs)
+    for kw, r in zip(cfgs, res):
+        if "crash" in r:
+            ck.infra_errors.append(f"corpus child (listing={kw['listing']}) crashed: {r['crash']}")
+    if ck.infra_errors:
+        return
+    for c, item in zip(cases, LISTING_CORPUS):
+        outs = [r["results"].get(c["id"]) for r in res]
+        keys = [outcome(o) for o in outs]
+        camp.evaluations += len(keys)
+        camp.hit(f"input:{c['kind']}:{c['input_file_type']}")
+        if c.get("same_basename"):
+            camp.hit("dir-with-equal-basenames")
+        if c.get("mixed_types"):
+            camp.hit("dir-with-files-of-different-types")
+        if keys[0].startswith("files:") and outs[0]["files"]:
+            camp.distinct.add(c["id"])
+        else:
+            camp.hit("generator-error:" + keys[0][6:40])
+        bad = [i for i, kx in enumerate(keys) if kx != keys[0]]
+        if not bad:
+            if len(camp.samples) < 3:
+                camp.samples.append({"case": c["id"], "files_in": c["files"], "listings": CORPUS_LISTINGS,
+                                     "files_out": sorted((outs[0] or {}).get("files", {})), "identical": True})
+            continue
+        factor = diagnose(lab, c, {}, [{k: cfgs[i][k] for k in ("seed", "listing", "cwd")} for i in (bad[0], 0)])
+        ck.fail({"oracle": "differential", "entry": "generate", "factor": factor, "input": c["kind"], "same_basename": bool(c.get("same_basename")),
+                 "input_file_type": c["input_file_type"], "mixed_types": bool(c.get("mixed_types"))},
+                {"kind": "differential", "case": strip({k: v for k, v in c.items() if k != "path"}), "dir_files": item["dir_files"], "history": None},
+                f"corpus case {c['id']}: listing={cfgs[bad[0]]['listing']} differs from listing=sorted: {first_diff(outs[0] or {}, outs[bad[0]] or {})}; isolated factor: {factor}",
+                "byte-identical files under every listing order")
+    camp.wall_s = time.time() - t0
+
+
 # ---------------------------------------------------------------- the CLI entry point in one interpreter (D18)
 D18_DOC = {"title": "M", "type": "object", "properties": {"fooBar": {"type": "integer"}, "bazQux": {"type": "string"}}}
 BASE_ARGV = ["--input", "s.json", "--input-file-type", "jsonschema", "--disable-timestamp"]
@@ -618,12 +695,16 @@ def run(ck: Check) -> None:
         "hash randomisation, dict ordering, Jinja2/black/isort internals and process history are run-time behaviour covered only by the differential runs",
         "the set-site analysis is name- and annotation-based (conservative but not complete): an unannotated set that reaches an "
         "iteration through untyped calls is not in the table; the differential runs under several hash seeds are the net for those",
-        "directory inputs: independence from the listing order is proved only for pairwise distinct basenames (sort key is p.name)",
+        "directory inputs: independence from the listing order is proved for the MODEL of the two listing sites (a stable sort by the "
+        "tuple (basename, path); the first file of a sorted listing) and tied to the code by the shape recognised in the source "
+        "(sorted( without key / key=lambda v: (v.name, v.as_posix())); that Path.rglob returns every entry exactly once and that "
+        "str / Path comparison is the total order of the model is trusted",
         "error messages may contain set reprs (reviewed tag errorMessageOnly): for failing runs only the exception type is compared",
         f"source tree analysed: {REPO}",
     ]
     lab = Lab()
     try:
+        campaign_listing_corpus(ck, lab)
         campaign_differential(ck, lab, 60 if quick else 400, 6 if quick else 24, [0, 1, 2, 3] if quick else [0, 1, 2, 3, 4, 5, "random", 7])
         campaign_main_history(ck, lab)
         try:
